@@ -546,6 +546,9 @@ contract(F, "GramStack._serviceOneTxPkt", "C35,C25",
                    "laters is not self.txPkts and blockeds is not self.txPkts and laters is not blockeds"],
          modifies=["self.txPkts[*]", "laters[*]", "blockeds[*]"] + H_MOD,
          ensures=[
+             # C25: a send error that does not propagate was a transient one
+             "self.handler.nhard == old(self.handler.nhard)",
+             "implies(self.handler.nfail != old(self.handler.nfail), self.handler.errno in %s)" % TR,
              # the head of the queue is taken, the rest keeps its order
              "is_slice(self.txPkts, g_tx0, 1, len(g_tx0))",
              # it goes to the END of exactly one of {wire, laters}
@@ -564,9 +567,6 @@ contract(F, "GramStack._serviceOneTxPkt", "C35,C25",
              "implies(%s == %s and result, self.handler.nfail == old(self.handler.nfail) + 1 and "
              "self.handler.errno in %s and %s[1] not in g_blk0 and c35_appended(blockeds, g_blk0, %s[1]) and "
              "c35_failed_added(self.handler, %s[1]))" % (NW, NW0, TR, HEAD, HEAD, HEAD),
-             # C25: a send error that does not propagate was a transient one
-             "self.handler.nhard == old(self.handler.nhard)",
-             "implies(self.handler.nfail != old(self.handler.nfail), self.handler.errno in %s)" % TR,
          ],
          raises={"OSError": [
              # C25: only a non-transient errno propagates; nothing was sent; the caller's containers are untouched
